@@ -55,6 +55,18 @@ theorem C01_roundtrip_dyn (L : DynLeaves MF Tok) {mode : Mode} (S : Sound L mode
   obtain ⟨c1, _, c3, _⟩ := close_tracks L S c _ _ ht
   exact ⟨c1, closedStream_inflate c3⟩
 
+/-- the same stream followed by ANY bytes (a trailer, another member, a caller's data): the specification inflater still
+    yields exactly the data and leaves exactly those bytes (`inflate_prefix_stable`) — compress-then-decompress does not
+    depend on what comes after the stream -/
+theorem C01_roundtrip_dyn_then_anything (L : DynLeaves MF Tok) {mode : Mode} (S : Sound L mode) (c : Cfg) (hw : 0 < c.window)
+    (dst : Dst) (hh : dst.Healthy) (hd : dst.got = []) (ops : List Op) (hops : ∀ op ∈ ops, op.keepsOpen)
+    (hok : ∀ r ∈ (run L c (WState.init L dst) ops).2, r.err = none) (after : List UInt8) :
+    Container.specInflater mode ((close L c (run L c (WState.init L dst) ops).1).1.dst.bytes ++ after) =
+      some (dataAfterAll [] ops (run L c (WState.init L dst) ops).2, after) := by
+  obtain ⟨_, st, rest, hinf, hr, _⟩ := C01_roundtrip_dyn L S c hw dst hh hd ops hops hok
+  have := Container.specInflater_exact_of_done mode _ _ rest st hinf hr after
+  simpa using this
+
 theorem C01_empty (L : DynLeaves MF Tok) {mode : Mode} (S : Sound L mode) (c : Cfg)
     (dst : Dst) (hh : dst.Healthy) (hd : dst.got = []) :
     ∃ st rest, inflate mode [] (close L c (WState.init L dst)).1.dst.bytes = .done #[] rest st := by
@@ -153,6 +165,7 @@ end Fastgo.Writer
 #print axioms Fastgo.Writer.C01_checked_block_meets_contract
 #print axioms Fastgo.Writer.C01_block_history_local
 #print axioms Fastgo.Writer.C01_roundtrip_dyn
+#print axioms Fastgo.Writer.C01_roundtrip_dyn_then_anything
 #print axioms Fastgo.Writer.C01_empty
 #print axioms Fastgo.Writer.C01_roundtrip_huff
 #print axioms Fastgo.Writer.C01_checked_call_meets_contract
